@@ -3,7 +3,7 @@
    repaired gene_cmp); the pinned gene_cmp is not one. *)
 From Coq Require Import ZArith List Bool Arith Lia ZifyBool.
 Local Ltac c02_scan0 := idtac. (* separates the Require lines for the dependency scanner of lib/vv.py *)
-From VV Require Import Base.F64 Mep.Genome Mep.Draws Mep.OpsDefs Mep.OpsProofs.
+From VV Require Import Base.F64 Fitness.F64Order Mep.Genome Mep.Draws Mep.OpsDefs Mep.OpsProofs.
 Local Ltac c02_scan1 := idtac.
 Import ListNotations.
 Local Open Scope nat_scope.
@@ -81,15 +81,15 @@ Proof. intros H. unfold arguments. rewrite map_length, combine_length. unfold ar
 
 Lemma gene_ok_parts r c ge : gene_ok_b ss R C patch r c ge = true ->
   length (g_args ge) = arity (g_sym ge).
-Proof. unfold gene_ok_b. rewrite !andb_true_iff. intros [[[[[_ _] H] _] _] _]. apply Nat.eqb_eq. exact H. Qed.
+Proof. intros H. apply gene_ok_inv in H. apply H. Qed.
 
 Lemma gene_ok_args_replace r c ge args' :
   gene_ok_b ss R C patch r c ge = true -> length args' = length (g_args ge) ->
   Forall (fun a => r < a < R) args' ->
   gene_ok_b ss R C patch r c {| g_sym := g_sym ge; g_par := g_par ge; g_args := args' |} = true.
 Proof.
-  unfold gene_ok_b. cbn [g_sym g_args]. rewrite !andb_true_iff.
-  intros [[[[[H1 H2] H3] _] H5] H6] Hl Hf. rewrite Hl. repeat split; auto.
+  unfold gene_ok_b. cbn [g_sym g_args g_par]. rewrite !andb_true_iff.
+  intros [[[[[[H1 H2] H3] _] H5] H6] H7] Hl Hf. rewrite Hl. repeat split; auto.
   apply forallb_forall. intros a Ha. rewrite Forall_forall in Hf. specialize (Hf a Ha).
   apply andb_true_iff. split; apply Nat.ltb_lt; lia.
 Qed.
@@ -267,37 +267,23 @@ Proof.
     intros H. apply andb_true_iff in H. destruct H as [H1 H2]. apply negb_true_iff in H1, H2. lia.
 Qed.
 
-Lemma params_swo_inv g : params_swo_b g = true ->
-  (forall x, In x (params_of g) -> par_incomp x x = true) /\
-  (forall x y z, In x (params_of g) -> In y (params_of g) -> In z (params_of g) ->
-     par_incomp x y = true -> par_incomp y z = true -> par_incomp x z = true).
+(* "neither is less" on numbers is equality of the order keys (Fitness/F64Order.v) *)
+Lemma par_incomp_key x y : nonan x -> nonan y -> (par_incomp x y = true <-> key x = key y).
 Proof.
-  unfold params_swo_b. intros H. rewrite forallb_forall in H. split.
-  - intros x Hx. specialize (H x Hx). apply andb_true_iff in H. apply H.
-  - intros x y z Hx Hy Hz Hxy Hyz. specialize (H x Hx). apply andb_true_iff in H. destruct H as [_ H].
-    rewrite forallb_forall in H. specialize (H y Hy). rewrite forallb_forall in H. specialize (H z Hz).
-    rewrite Hxy, Hyz in H. exact H.
-Qed.
-
-Lemma in_params_of g r c ge : r < rows g -> c < cats g -> cell g r c = Some ge ->
-  s_parametric (g_sym ge) = true -> In (g_par ge) (params_of g).
-Proof.
-  intros Hr Hc Hcell Hp. unfold params_of. apply in_flat_map. exists r. split; [apply in_seq; lia|].
-  apply in_flat_map. exists c. split; [apply in_seq; lia|]. rewrite Hcell, Hp. left. reflexivity.
+  intros Hx Hy. unfold par_incomp. rewrite (ltb_key x y Hx Hy), (ltb_key y x Hy Hx).
+  rewrite andb_true_iff, !negb_true_iff, !Z.ltb_ge. lia.
 Qed.
 
 (* cse() of the repaired tree keeps individuals well-formed *)
 Lemma cse_wf ss patch i i' :
-  wf_sset_b ss = true -> ind_ok_b ss patch (i_gen i) = true -> params_swo_b (i_gen i) = true ->
+  wf_sset_b ss = true -> ind_ok_b ss patch (i_gen i) = true ->
   cse i = Some i' ->
   ind_ok_b ss patch (i_gen i') = true /\ i_age i' = i_age i /\ i_xt i' = i_xt i.
 Proof.
-  intros Hss Hg Hswo H. unfold cse in H.
+  intros Hss Hg H. unfold cse in H.
   destruct (cse_genome gene_cmp (i_gen i)) as [g'|] eqn:E; [|discriminate].
   inversion H. subst. cbn [with_gen i_gen i_age i_xt]. split; [|auto].
-  destruct (params_swo_inv _ Hswo) as [Prefl Ptrans].
-  set (K0 := fun (s : sym) (p : f64) =>
-               sym_in_b ss s = true /\ (s_parametric s = true -> In p (params_of (i_gen i)))).
+  set (K0 := fun (s : sym) (p : f64) => sym_in_b ss s = true /\ (s_parametric s = true -> nonan p)).
   assert (Hcoh : forall a b, K K0 a -> K K0 b -> s_opcode (g_sym a) = s_opcode (g_sym b) ->
             s_argcats (g_sym a) = s_argcats (g_sym b) /\ s_parametric (g_sym a) = s_parametric (g_sym b)).
   { intros a b [Ha _] [Hb _] Hop. eapply sym_in_coherent; eauto. }
@@ -305,26 +291,28 @@ Proof.
   - (* reflexive *)
     intros k Hk. apply gene_equiv_char; [intros _; auto|]. split; [reflexivity|].
     destruct (is_terminal (g_sym k)); [|reflexivity].
-    destruct (s_parametric (g_sym k)) eqn:Ep; [|exact I]. apply Prefl. apply Hk. exact Ep.
+    destruct (s_parametric (g_sym k)) eqn:Ep; [|exact I].
+    apply par_incomp_key; [apply Hk; exact Ep|apply Hk; exact Ep|reflexivity].
   - (* transitive *)
     intros a b c Ha Hb Hc Hab Hbc.
     apply gene_equiv_char in Hab; [|apply Hcoh; assumption].
     apply gene_equiv_char in Hbc; [|apply Hcoh; assumption].
     destruct Hab as [O1 H1]. destruct Hbc as [O2 H2].
     apply gene_equiv_char; [apply Hcoh; assumption|]. split; [congruence|].
-    destruct (Hcoh a b Ha Hb O1) as [Cac Cpar].
+    destruct (Hcoh a b Ha Hb O1) as [Cac Cpar]. destruct (Hcoh b c Hb Hc O2) as [_ Cp2].
     unfold is_terminal in *. rewrite <- Cac, <- Cpar in H2.
     destruct (s_argcats (g_sym a)).
     + destruct (s_parametric (g_sym a)) eqn:Ep; [|exact I].
-      eapply Ptrans; [apply Ha; exact Ep|apply Hb; congruence|apply Hc|exact H1|exact H2].
-      destruct (Hcoh b c Hb Hc O2) as [_ Cp2]. congruence.
+      assert (Na : nonan (g_par a)) by (apply Ha; exact Ep).
+      assert (Nb : nonan (g_par b)) by (apply Hb; congruence).
+      assert (Nc : nonan (g_par c)) by (apply Hc; congruence).
+      apply par_incomp_key; auto. apply par_incomp_key in H1; auto. apply par_incomp_key in H2; auto. congruence.
     + congruence.
   - (* every cell is a good key *)
-    intros r c ge Hr Hc Hcell. unfold K, K0. split.
-    + pose proof (proj1 (ind_ok_iff _ _ _) Hg) as (_ & _ & P3 & _).
-      destruct (P3 r c Hr Hc) as (ge0 & Hge0 & Hok). rewrite Hcell in Hge0. inversion Hge0. subst ge0.
-      unfold gene_ok_b in Hok. rewrite !andb_true_iff in Hok. apply Hok.
-    + intros Hp. eapply in_params_of; eauto.
+    intros r c ge Hr Hc Hcell. unfold K, K0.
+    pose proof (proj1 (ind_ok_iff _ _ _) Hg) as (_ & _ & P3 & _).
+    destruct (P3 r c Hr Hc) as (ge0 & Hge0 & Hok). rewrite Hcell in Hge0. inversion Hge0. subst ge0.
+    apply gene_ok_inv in Hok. destruct Hok as (S1 & _ & _ & _ & _ & _ & S7). split; [exact S1|exact S7].
 Qed.
 
 (* the pinned comparator is not a strict weak ordering: two genes with the
